@@ -68,6 +68,9 @@ package meta
 //@   ensures found ==> start == refStart(e, e.longest, haystack, at) && end == refEnd(e, e.longest, haystack, at)
 //@   ensures !found ==> start == -1 && end == -1
 
+//@ spec func normB(n int) int = ite(n < 0, -1, n)
+//@ spec func normB0(n int) int = ite(n <= 0, -1, n)
+
 //@ func advancePastEmpty
 //@   props C04 C08 C07
 //@   requires 0 <= pos && pos <= len(haystack) + 1 && len(haystack) <= 140737488355328
@@ -77,9 +80,9 @@ package meta
 //@   props C04 C11 C07 C05
 //@   requires engineOK(e) && len(haystack) <= 140737488355328
 //@   modifies @searchState
-//@   ensures result == cnt(e, e.longest, haystack, 0, -1, n)
+//@   ensures result == cnt(e, e.longest, haystack, 0, -1, normB(n))
 //@   loop 1: invariant 0 <= pos && pos <= len(haystack) + 1 && 0 <= count && count <= pos && (n <= 0 || count < n) && n != 0 && state != nil && lastNonEmptyEnd <= pos
-//@   loop 1: invariant count + cnt(e, e.longest, haystack, pos, lastNonEmptyEnd, ite(n < 0, n, n - count)) == cnt(e, e.longest, haystack, 0, -1, n)
+//@   loop 1: invariant count + cnt(e, e.longest, haystack, pos, lastNonEmptyEnd, ite(n < 0, -1, n - count)) == cnt(e, e.longest, haystack, 0, -1, normB(n))
 //@   loop 1: decreases len(haystack) + 1 - pos
 
 // public engine search API: contract ASSUMED at this layer (dispatch layer: DESIGN 6/C02)
@@ -94,18 +97,24 @@ package meta
 //@   props C04 C11 C07 C05
 //@   requires engineOK(e) && len(haystack) <= 140737488355328
 //@   modifies results[*], @searchState
-//@   ensures len(result) == cnt(e, e.longest, haystack, 0, -1, ite(n <= 0, -1, n))
+//@   ensures len(result) == cnt(e, e.longest, haystack, 0, -1, normB0(n))
 //@   ensures forall k :: 0 <= k && k < len(result) ==> isRefMatch(e, e.longest, haystack, result[k][0], result[k][1])
 //@   ensures forall k :: 0 <= k && k + 1 < len(result) ==> result[k][1] <= result[k+1][0] && result[k][0] < result[k+1][0]
 //@   ensures (base(result) == base(results) && results != nil) || fresh(result)
+//@   ensures forall j :: j < 0 && 0 <= off(results) + j ==> results[j] == old(results[j])
+//@   ensures base(result) == base(results) ==> off(result) == off(results)
+//@   ensures forall j :: j < 0 && 0 <= off(results) + j ==> results[j] == old(results[j])
+//@   ensures base(result) == base(results) ==> off(result) == off(results)
 //@   ensures forall k :: 0 <= k && k < len(result) ==> 0 <= result[k][0] && result[k][0] <= result[k][1] && result[k][1] <= len(haystack)
 //@   ensures n > 0 ==> len(result) <= n
+//@   loop 1: invariant forall j :: j < 0 && 0 <= off(old(results)) + j ==> old(results)[j] == old(results[j])
+//@   loop 1: invariant base(results) == base(old(results)) ==> off(results) == off(old(results))
 //@   loop 1: invariant 0 <= pos && pos <= len(haystack) && len(results) <= pos && lastMatchEnd <= pos && state != nil && (n <= 0 || len(results) <= n)
-//@   loop 1: invariant len(results) + cnt(e, e.longest, haystack, pos, lastMatchEnd, ite(n <= 0, -1, n - len(results))) == cnt(e, e.longest, haystack, 0, -1, ite(n <= 0, -1, n))
+//@   loop 1: invariant len(results) + cnt(e, e.longest, haystack, pos, lastMatchEnd, ite(n <= 0, -1, n - len(results))) == cnt(e, e.longest, haystack, 0, -1, normB0(n))
 //@   loop 1: invariant forall k :: 0 <= k && k < len(results) ==> isRefMatch(e, e.longest, haystack, results[k][0], results[k][1]) && results[k][1] <= pos && results[k][0] < pos && 0 <= results[k][0] && results[k][0] <= results[k][1] && results[k][1] <= len(haystack)
 //@   loop 1: invariant forall k :: 0 <= k && k + 1 < len(results) ==> results[k][1] <= results[k+1][0] && results[k][0] < results[k+1][0]
 //@   loop 1: invariant (base(results) == base(old(results)) && old(results) != nil) || fresh(results)
-//@   loop 1: exit len(results) == cnt(e, e.longest, haystack, 0, -1, ite(n <= 0, -1, n))
+//@   loop 1: exit len(results) == cnt(e, e.longest, haystack, 0, -1, normB0(n))
 
 //@ trusted func (*Engine).IsMatch
 //@   requires engineOK(e)
@@ -131,9 +140,11 @@ package meta
 //@   props C04 C11 C07
 //@   requires engineOK(e) && len(haystack) <= 140737488355328
 //@   modifies results[*], @searchState
-//@   ensures genericEnum(e) ==> len(result) == cnt(e, e.longest, haystack, 0, -1, ite(n <= 0, -1, n))
+//@   ensures genericEnum(e) ==> len(result) == cnt(e, e.longest, haystack, 0, -1, normB0(n))
 //@   ensures genericEnum(e) ==> (forall k :: 0 <= k && k < len(result) ==> isRefMatch(e, e.longest, haystack, result[k][0], result[k][1]))
 //@   ensures forall k :: 0 <= k && k < len(result) ==> 0 <= result[k][0] && result[k][0] <= result[k][1] && result[k][1] <= len(haystack)
 //@   ensures n > 0 ==> len(result) <= n
 //@   ensures forall k :: 0 <= k && k + 1 < len(result) ==> result[k][1] <= result[k+1][0] && result[k][0] < result[k+1][0]
 //@   ensures (base(result) == base(results) && results != nil) || fresh(result)
+//@   ensures forall j :: j < 0 && 0 <= off(results) + j ==> results[j] == old(results[j])
+//@   ensures base(result) == base(results) ==> off(result) == off(results)
